@@ -14,6 +14,26 @@ CHECKS = {
    note="Trusted: the simulator (simrt) and the instrumenter's semantics-preserving rewrite; the sequential model written from the property statement; porcupine v1.3.0. Interleavings at sync points and sampled function-entry preemption points only. Remote (gRPC) leg is covered under C11.",
    technique=TECH+"porcupine linearizability check of recorded histories against a sequential reference model",
    ref="DESIGN.md §7 C01"),
+ "C02": dict(level="exploration",
+   text="Seeded search over write histories, history-ring configurations, watcher start points and consumer speeds under controlled schedules; every watcher's stream is compared event by event with the totally ordered commit log taken at the store's backing-store seam (exact snapshot + exact contiguous continuation for some establishment point inside the Watch call), plus black-box chain/replay/exactly-once oracles without the tap, and a lag-accounted oracle for spurious or missing Errored events.",
+   note="Trusted: simrt + instrumenter; the commit tap (backing-store seam is called under the collection lock in commit order - cross-checked by every kind watcher agreeing with it). Sampling only.",
+   technique=TECH+"exact comparison of each watch stream with the commit-tap log (reference change-log model) and lag-accounted overrun oracle",
+   ref="DESIGN.md §7 C02"),
+ "C03": dict(level="exploration",
+   text="Seeded search over interleavings of blocking lifecycle helpers (TeardownAndDestroy, WatchFor, ContextWithTeardown) with actors adding/removing finalizers, tearing down, destroying and re-creating the same resource; safety oracles over the commit log (no destroy with finalizers; success only after a destroy; WatchFor returns the first satisfying state for some establishment point; context cancelled iff a teardown/destroy/absence occurred) and no-missed-wake-up oracles evaluated at true quiescence.",
+   note="Trusted: simrt + instrumenter; commit tap; reference evaluator of WatchFor conditions written from the documentation. Teardown's ready flag is checked in C04's run. Sampling only.",
+   technique=TECH+"commit-log safety invariants and quiescence-time liveness oracles for blocked helpers",
+   ref="DESIGN.md §7 C03"),
+ "C04": dict(level="exploration",
+   text="Seeded search over concurrent UpdateWithConflicts / Modify / AddFinalizer / RemoveFinalizer / Teardown calls (state.State, owned.State, pkg/safe) with matching and mismatching owner/phase options and an adversary destroying/re-creating the resource; each call is matched against the commits its task made inside its call window: success = exactly one commit equal to the call's mutation applied to the predecessor value (or a justified no-op), error = no commit and a class justified by some state during the call.",
+   note="Trusted: simrt + instrumenter; commit tap with task attribution. One open known finding (ABA across destroy/re-create at equal versions) is reported as KNOWN-FINDING, not as a violation. Sampling only.",
+   technique=TECH+"per-call attribution of commits in the tap log against a mutation model (token conservation)",
+   ref="DESIGN.md §7 C04"),
+ "C12": dict(level="exploration",
+   text="Seeded search over histories and history-ring configurations; at quiescence a watch is resumed from EVERY bookmark of a reference stream and must be accepted inside the guaranteed window and deliver the exact continuation (each event again carrying the right bookmark), crash-and-resume watchers run while writes continue and must concatenate to the log, forged bookmarks (random, truncated, extended, cookie bit-flips, arbitrary positions, minted by another OS process) must be rejected with the invalid-bookmark class or yield an exact suffix, and tail requests must deliver a contiguous suffix of the right length.",
+   note="Trusted: simrt + instrumenter; commit tap; the reference stream is itself checked against the tap. The 'other process incarnation' bookmark comes from a real child process of the worker. Sampling only.",
+   technique=TECH+"resume-from-every-bookmark differential against the commit-tap log, forged-bookmark fault injection",
+   ref="DESIGN.md §7 C12"),
 }
 
 NOT_YET = "check not built yet in this round (planned in DESIGN.md §7); no claim is made"
